@@ -128,3 +128,52 @@ package v2
 //@ func (Service).verifyBearerTokenAgainstRequest
 //@   property C30
 //@   ensures [issued_for_this_sender] err == nil ==> bearerUserOK()
+
+// ---- C28 (request side): role classification and the operation the checks are asked about.
+
+//@ ghost pred keyIsInnerRing() bool
+//@ ghost pred keyIsContainerNode() bool
+//@ ghost pred irKeyMatched() bool
+//@ ghost pred reqTTL() uint32
+//@ ghost pred bearerMatchesRequest() bool
+
+//@ callrule c28_ir_key_match in (senderClassifier).isInnerRingKey
+//@   property C28
+//@   callee bytes.Equal
+//@   defines result ==> irKeyMatched()
+//@ func (senderClassifier).isInnerRingKey
+//@   property C28
+//@   ensures [true_only_for_listed_key] res0 ==> irKeyMatched()
+//@   ensures [never_errors] err == nil
+//@   defines res0 && err == nil ==> keyIsInnerRing()
+
+//@ callrule c28_container_node_fact in (senderClassifier).classify
+//@   property C28
+//@   callee dynamic:FSChain.InContainerInLastTwoEpochs, *).InContainerInLastTwoEpochs
+//@   defines res0 && err == nil ==> keyIsContainerNode()
+
+//@ func (senderClassifier).classify
+//@   property C28
+//@   ensures [no_error] err == nil
+//@   ensures [owner_iff_author_is_container_owner] (res0 == acl.RoleOwner) == (reqAuthor == cnrOwner)
+//@   ensures [inner_ring_only_for_ir_key] res0 == acl.RoleInnerRing ==> keyIsInnerRing()
+//@   ensures [container_only_for_container_node] res0 == acl.RoleContainer ==> keyIsContainerNode()
+//@   ensures [one_of_four_roles] res0 == acl.RoleOwner || res0 == acl.RoleInnerRing || res0 == acl.RoleContainer || res0 == acl.RoleOthers
+
+//@ func (Service).verifyBearerTokenAgainstRequest
+//@   property C28
+//@   defines err == nil ==> bearerMatchesRequest()
+
+//@ func (Service).findRequestInfo
+//@   property C28
+//@   ensures [operation_as_requested] err == nil ==> res0.Operation == op
+//@   ensures [bearer_kept_only_if_it_matches_request] err == nil && res0.Bearer != nil ==> bearerMatchesRequest()
+//@   ensures [bearer_is_the_requests] err == nil ==> res0.Bearer == tokens.Bearer
+
+//@ callrule c28_ttl_fact in (Service).PutRequestToInfo
+//@   property C28
+//@   callee *RequestMetaHeader).GetTtl
+//@   defines result == reqTTL()
+//@ func (Service).PutRequestToInfo
+//@   property C28
+//@   ensures [tombstone_put_is_delete_unless_replication] err == nil ==> res0.Operation == ite(op == acl.OpObjectDelete && res0.RequestRole == acl.RoleContainer && reqTTL() == 1, acl.OpObjectPut, op)
